@@ -466,7 +466,7 @@ def activity(isotope, mass, env, exposure, rest_times):
             if abs(U) < 1e-10 and abs(V) < 1e-10:
                 precision_correction = W * (V-U)*(1-(V+U)/2)
             else:
-                precision_correction = W * (exp(-U)-exp(-V))
+                precision_correction = W * exp(-min(U, V))*expm1(-abs(V-U)) * (1 if U > V else -1)
 
             activity = root*precision_correction
             if activity < 0:
